@@ -41,6 +41,7 @@ theorem resume_dying (c : Cfg) (k : List Fr) :
     intro s v hd
     simp only [resume]
     exact frameRet_dying (P := fun r => r.closed = true) _ _ _ _ _ _ hd ih
+      (fun s' e => (runExit_fields s' (some e)).1)
 
 /-! ### the loop waits only on behalf of the call it serves -/
 
@@ -82,13 +83,8 @@ theorem startApi_blockedFor (c : Cfg) (s : St) (a : Api) : BlockedFor a (startAp
       | exact hR _ _ hp
       | (rename_i s1 h1
          exact startDo_pend _ _ _ _ _ _ _ _ (connOpen_pend h1 hp) (fun s' e h => hR _ _ h) (fun hf => by cases hf))
-  | setup a => exact setupStart_pend _ _ _ _ _ hp hR
-  | play =>
-    simp only []
-    repeat' split
-    all_goals first
-      | exact hR _ _ hp
-      | exact startDo_pend _ _ _ _ _ _ _ _ (by simpa [Pend] using hp) (fun s' e h => hR _ _ (by simpa [Pend, playUndo] using h)) (fun hf => by cases hf)
+  | setup a => exact setupStart_pend _ _ _ _ _ _ hp hR
+  | play => exact playStart_pend _ _ _ _ hp hR
   | record =>
     simp only []
     repeat' split
@@ -102,38 +98,77 @@ theorem startApi_blockedFor (c : Cfg) (s : St) (a : Api) : BlockedFor a (startAp
       | exact hR _ _ hp
       | exact startDo_pend _ _ _ _ _ _ _ _ (by simpa [Pend] using hp) (fun s' e h => hR _ _ (by simpa [Pend] using h)) (fun hf => by cases hf)
 
-/-- invariant of the run loop: idle / closed with nothing pending on the stack, or inside
-waitResponse on behalf of the API call being served -/
-def Inv (s : St) : Prop :=
-  s.stack = [] ∨ (∃ m n tp k, s.stack = .wait m n tp :: k) ∧ ∃ a, s.pending = some a
+theorem startApi_blocked (c : Cfg) (s : St) (a : Api) : Blocked (startApi c s a) := by
+  have hR := resume_blocked c []
+  unfold startApi
+  cases a with
+  | options =>
+    simp only []
+    repeat' split
+    all_goals first
+      | exact hR _ _
+      | exact startDo_blocked _ _ _ _ _ _ _ _ (fun s' e => hR _ _) (fun hf => by cases hf)
+  | describe => exact describeStart_blocked _ _ _ _ _ hR
+  | announce =>
+    simp only []
+    repeat' split
+    all_goals first
+      | exact hR _ _
+      | exact startDo_blocked _ _ _ _ _ _ _ _ (fun s' e => hR _ _) (fun hf => by cases hf)
+  | setup a => exact setupStart_blocked _ _ _ _ _ _ hR
+  | play => exact playStart_blocked _ _ _ _ hR
+  | record =>
+    simp only []
+    repeat' split
+    all_goals first
+      | exact hR _ _
+      | exact startDo_blocked _ _ _ _ _ _ _ _ (fun s' e => hR _ _) (fun hf => by cases hf)
+  | pause =>
+    simp only []
+    repeat' split
+    all_goals first
+      | exact hR _ _
+      | exact startDo_blocked _ _ _ _ _ _ _ _ (fun s' e => hR _ _) (fun hf => by cases hf)
 
-theorem inv_of_blockedFor {a : Api} {s : St} (h : BlockedFor a s) : Inv s := by
-  rcases h with h | ⟨hw, hp⟩
-  · exact Or.inl h
-  · exact Or.inr ⟨hw, a, hp⟩
+theorem checkTimeout_blocked (c : Cfg) (s : St) (got stale : Bool) (h : Blocked s) :
+    Blocked (checkTimeout c s got stale) := by
+  simp only [checkTimeout, switchStart]
+  repeat' split
+  all_goals first
+    | exact h
+    | exact runExit_blocked _ _
+    | (rcases h with h | ⟨m, n, tp, k, h⟩
+       · exact Or.inl (by simpa using h)
+       · exact Or.inr ⟨m, n, tp, k, by simpa using h⟩)
+    | exact resetStart_blocked c _ _ _ _ (resume_blocked c [])
 
-theorem inv_runExit (s : St) (e : Res) : Inv (runExit s e) := Or.inl (runExit_fields s e).2.2.2.2.2.1
+/-- invariant of the run loop: it is always at a blocking point — idle / closed (empty stack) or
+inside waitResponse (`wait` on top of the stack) -/
+def Inv (s : St) : Prop := Blocked s
+
+theorem inv_runExit (s : St) (e : Res) : Inv (runExit s e) := runExit_blocked s e
+
+theorem blocked_emit (s : St) (o : Out) (h : Blocked s) : Blocked (emit s o) := by
+  rcases h with h | ⟨m, n, tp, k, h⟩
+  · exact Or.inl (by simpa [emit] using h)
+  · exact Or.inr ⟨m, n, tp, k, by simpa [emit] using h⟩
 
 theorem step_inv (c : Cfg) (s : St) (e : Ev) (h : Inv s) : Inv (step c s e) := by
   unfold step
   split
-  · -- closed
-    cases e <;> simp only []
+  · cases e <;> simp only []
     all_goals first
       | exact h
-      | (rcases h with h | ⟨hw, hp⟩
-         · exact Or.inl (by simpa [emit] using h)
-         · exact Or.inr ⟨by simpa [emit] using hw, by simpa [emit] using hp⟩)
+      | exact blocked_emit _ _ h
   · split
     · -- idle
-      rename_i hst
       cases e with
-      | call a => exact inv_of_blockedFor (startApi_blockedFor c s a)
+      | call a => exact startApi_blocked c s a
       | resp r => exact h
       | sreq o =>
         cases o
         · exact inv_runExit _ _
-        · exact Or.inl (by simpa [emit] using hst)
+        · exact blocked_emit _ _ h
       | frame ch =>
         simp only []
         split
@@ -141,42 +176,78 @@ theorem step_inv (c : Cfg) (s : St) (e : Ev) (h : Inv s) : Inv (step c s e) := b
         · exact inv_runExit _ _
       | readErr => exact inv_runExit _ _
       | timer => exact h
+      | liveness got stale => exact checkTimeout_blocked c s got stale h
       | close => exact inv_runExit _ _
     · -- waiting
       rename_i m n tp k hst
-      have hp : ∃ a, s.pending = some a := by
-        rcases h with h | ⟨_, hp⟩
-        · rw [hst] at h; cases h
-        · exact hp
-      obtain ⟨ap, hap⟩ := hp
-      have hR := resume_pend c ap k
+      have hR := resume_blocked c k
       cases e with
       | call a => exact h
       | resp r =>
         simp only []
         split
-        · exact inv_of_blockedFor (doTail_pend _ _ _ _ _ _ _ (by simpa [Pend] using hap) hR)
+        · exact doTail_blocked _ _ _ _ _ _ _ hR
         · exact h
       | sreq o =>
         cases o
-        · exact inv_of_blockedFor (hR _ _ (by simpa [Pend] using hap))
-        · rcases h with h | ⟨hw, hp⟩
-          · exact Or.inl (by simpa [emit] using h)
-          · exact Or.inr ⟨by simpa [emit] using hw, by simpa [emit] using hp⟩
+        · exact hR _ _
+        · exact blocked_emit _ _ h
       | frame ch =>
         simp only []
         split
         · exact h
-        · exact inv_of_blockedFor (hR _ _ (by simpa [Pend] using hap))
-      | readErr => exact inv_of_blockedFor (hR _ _ (by simpa [Pend] using hap))
-      | timer => exact inv_of_blockedFor (hR _ _ (by simpa [Pend] using hap))
-      | close => exact inv_of_blockedFor (hR _ _ (by simpa [Pend] using hap))
+        · exact hR _ _
+      | readErr => exact hR _ _
+      | timer => exact hR _ _
+      | liveness got stale => exact h
+      | close => exact hR _ _
     · exact h
 
 theorem run_inv (c : Cfg) (es : List Ev) : ∀ s, Inv s → Inv (run c s es) := by
   induction es with
   | nil => intro s h; exact h
   | cons e es ih => intro s h; exact ih _ (step_inv c s e h)
+
+/-- while an API call is being served the loop waits only on ITS behalf: after any event the loop is
+idle / closed again or still waiting for the same call -/
+theorem step_keeps_pending (c : Cfg) (s : St) (e : Ev) (m : Meth) (n tp : Nat) (k : List Fr) (ap : Api)
+    (hc : s.closed = false) (hst : s.stack = .wait m n tp :: k) (hap : s.pending = some ap) :
+    BlockedFor ap (step c s e) := by
+  have hself : BlockedFor ap s := Or.inr ⟨⟨m, n, tp, k, hst⟩, hap⟩
+  unfold step
+  split
+  · rename_i h; rw [hc] at h; cases h
+  · split
+    · rename_i h; rw [hst] at h; cases h
+    · rename_i m' n' tp' k' hst'
+      have hR := resume_pend c ap k'
+      cases e with
+      | call a => exact hself
+      | resp r =>
+        simp only []
+        split
+        · exact doTail_pend _ _ _ _ _ _ _ (by simpa [Pend] using hap) hR
+        · exact hself
+      | sreq o =>
+        cases o
+        · exact hR _ _ (by simpa [Pend] using hap)
+        · exact Or.inr ⟨⟨m, n, tp, k, by simpa [emit] using hst⟩, by simpa [emit] using hap⟩
+      | frame ch =>
+        simp only []
+        split
+        · exact hself
+        · exact hR _ _ (by simpa [Pend] using hap)
+      | readErr => exact hR _ _ (by simpa [Pend] using hap)
+      | timer => exact hR _ _ (by simpa [Pend] using hap)
+      | liveness got stale => exact hself
+      | close => exact hR _ _ (by simpa [Pend] using hap)
+    · exact hself
+
+/-- an accepted API call is served on its own behalf -/
+theorem call_accepted (c : Cfg) (s : St) (a : Api) (hc : s.closed = false) (hs : s.stack = []) :
+    BlockedFor a (step c s (.call a)) := by
+  simp only [step, hc, hs]
+  exact startApi_blockedFor c s a
 
 end Rtsp.ClientSm
 
@@ -192,10 +263,16 @@ def undoOf (f : Fr) (s : St) : St :=
   | .pauseK => { s with writer := true }
   | _ => s
 
+/-- frames that hand an error of the `do` below them on to their caller (all but `reset`, which ignores
+it, and the frames of trySwitchingProtocol, which leave the run loop with it) -/
+def Propagating (f : Fr) : Prop :=
+  match f with
+  | .resetK _ _ | .swDescK _ | .swSetupK _ | .swPlayK => False
+  | _ => True
+
 theorem frameRet_err (c : Cfg) (f : Fr) (k : List Fr) (retK : St → Val → St) (s : St) (e : Err)
-    (hf : ∀ n b, f ≠ .resetK n b) : frameRet c f k retK s (.err e) = retK (undoOf f s) (.err e) := by
-  cases f <;> simp [frameRet, undoOf]
-  exact absurd rfl (hf _ _)
+    (hf : Propagating f) : frameRet c f k retK s (.err e) = retK (undoOf f s) (.err e) := by
+  cases f <;> simp [frameRet, undoOf] <;> exact absurd hf (by simp [Propagating])
 
 def undoAll : List Fr → St → St
   | [], s => s
@@ -218,7 +295,7 @@ theorem undoAll_keeps (k : List Fr) : ∀ s,
     simp only [undoAll]
     exact ⟨h1.1.trans h2.1, h1.2.1.trans h2.2.1, h1.2.2.1.trans h2.2.2.1, h1.2.2.2.trans h2.2.2.2⟩
 
-def NoReset (k : List Fr) : Prop := ∀ f ∈ k, ∀ n b, f ≠ .resetK n b
+def NoReset (k : List Fr) : Prop := ∀ f ∈ k, Propagating f
 
 theorem resume_err (c : Cfg) (k : List Fr) (hk : NoReset k) :
     ∀ s e, resume c k s (.err e) = deliver (undoAll k s) (.err e) := by
@@ -263,5 +340,6 @@ theorem resume_dyingE (c : Cfg) (k : List Fr) :
     intro s e hd
     simp only [resume]
     exact frameRet_dyingE (P := fun r => r.closed = true ∧ r.closeRes ≠ none) _ _ _ _ _ _ hd ih
+      (fun s' e => ⟨(runExit_fields s' (some e)).1, by rw [(runExit_fields s' (some e)).2.1]; simp⟩)
 
 end Rtsp.ClientSm
